@@ -144,7 +144,8 @@ func CmdReplay(args []string, seed int64) int {
 		}(i, a)
 	}
 	wg.Wait()
-	out := map[string]interface{}{"reports": reports, "edges": len(edges), "states": nstates, "wall_s": walls}
+	out := map[string]interface{}{"reports": reports, "edges": len(edges), "states": nstates, "wall_s": walls,
+		"stats": env.AllStats()}
 	ex := map[string]interface{}{}
 	names := make([]string, 0, len(extras))
 	for n := range extras {
